@@ -177,6 +177,11 @@ theorem inv_apply (s : State) (a : Act) (h : Inv s) : Inv (apply s a) := by
   | run => exact inv_run s h
   | adv => exact inv_adv s h
   | disc => exact inv_discard s h
+  | notify =>
+    simp only [apply, notify]
+    split
+    · exact h
+    · exact inv_signal s h
 
 theorem inv_init (cap h0 : Nat) (hc : 0 < cap) : Inv (init cap h0) :=
   ⟨hc, by intro p x hx; simp [init] at hx, by intro p x hx; simp [init] at hx,
